@@ -265,6 +265,10 @@ def vocabulary(s, st):
         n += k
     s, k = re.subn(r'\bstd::(memcpy|memset|memchr|memmove|strlen)\b', r'\1', s); n += k
     s, k = re.subn(r'\bstd::(u?int(?:8|16|32|64)_t|uintptr_t|ptrdiff_t)\b', r'\1', s); n += k
+    while True:      # C++14 digit separators 1'000'000
+        s, k = re.subn(r"(?<=\d)'(?=\d)", '', s); n += k
+        if not k:
+            break
     s, k = re.subn(r'\b(\d+)ull\b', r'\1ULL', s); n += k
     s, k = re.subn(r'\b(\d+)u\b', r'\1U', s); n += k
     s, k = re.subn(r'std::numeric_limits\s*<\s*([\w:]+)\s*>\s*::\s*(max|min)\s*\(\s*\)', lambda m: 'LIMIT_%s_%s' % (m.group(2).upper(), m.group(1).replace('::', '_')), s); n += k
@@ -487,6 +491,7 @@ def insert_loop_contracts(body, loops, st):
     pat = re.compile(r'\b(for|while|do)\b')
     # first pass: positions
     found = []
+    found3 = []
     i = 0
     skip_while_at = set()
     pos = 0
@@ -515,6 +520,7 @@ def insert_loop_contracts(body, loops, st):
                 wpos = be + 1 + body[be + 1:].index('while')
                 skip_while_at.add(wpos)
                 found.append(('do', m.end()))     # CBMC: do <contract> { ... } while (c);
+                found3.append(('do', m.end(), body[be + 1:pe + 1]))
                 pos = m.end()
                 continue
             if kw == 'while' and pos in skip_while_at:
@@ -528,16 +534,30 @@ def insert_loop_contracts(body, loops, st):
                 continue
             pe = match(body, k, '(', ')')
             found.append((kw, pe + 1))
+            found3.append((kw, pe + 1, body[pos:pe + 1]))
             pos = m.end()
             continue
         pos += 1
-    for o in loops:
-        if o >= len(found):
-            raise ExtractError('loop ordinal %d not found (function has %d loops)' % (o, len(found)))
+    # keys: int = loop ordinal (must exist); str = regex matched against the text from the loop keyword to the end of
+    # its header (a loop the regex does not find simply gets no contract: the postconditions then decide)
+    chosen = {}
+    for o, text in loops.items():
+        if isinstance(o, int):
+            if o >= len(found):
+                raise ExtractError('loop ordinal %d not found (function has %d loops)' % (o, len(found)))
+            chosen[o] = text
+        else:
+            hits = [i for i, (kw, at, hdr) in enumerate(found3) if re.search(o, hdr, re.S)]
+            if len(hits) > 1:
+                raise ExtractError('loop regex %r matches %d loops' % (o, len(hits)))
+            if hits:
+                chosen[hits[0]] = text
+            else:
+                bump(st, 'loop-regex-not-found')
     out = body
-    for o in sorted(loops, reverse=True):
+    for o in sorted(chosen, reverse=True):
         at = found[o][1]
-        out = out[:at] + '\n' + loops[o].strip() + '\n' + out[at:]
+        out = out[:at] + '\n' + chosen[o].strip() + '\n' + out[at:]
         bump(st, 'loop-contract')
     st['loops-in-function'] = len(found)
     return out
